@@ -438,7 +438,17 @@ impl StreamSocket {
                     let segment = self.buf.swap_remove(&self.recv_seq).unwrap();
                     permit.send(segment)
                 }
-                Err(Closed(())) => return Err(Protocol::Tcp(Segment::Rst)),
+                Err(Closed(())) => {
+                    // The read half is gone. Data that nobody can read any
+                    // more is answered with a reset; the peer's FIN closes
+                    // nothing that is not closed already and is absorbed, so
+                    // that a graceful close by both sides stays graceful
+                    // whichever FIN arrives first.
+                    match self.buf.swap_remove(&self.recv_seq) {
+                        Some(SequencedSegment::Fin) => break,
+                        _ => return Err(Protocol::Tcp(Segment::Rst)),
+                    }
+                }
                 Err(Full(())) => {
                     self.recv_seq -= 1;
                     break;
@@ -555,7 +565,12 @@ impl Tcp {
             },
             Segment::Fin(seq) => match self.sockets.get_mut(&SocketPair::new(dst, src)) {
                 Some(sock) => sock.buffer(seq, SequencedSegment::Fin)?,
-                None => return Err(Protocol::Tcp(Segment::Rst)),
+                // The connection is already closed on this side (e.g. this
+                // end dropped its stream after reading everything while the
+                // peer's FIN was still on the wire): nothing is lost, so the
+                // late FIN is not answered with a reset, which could overtake
+                // this end's own last bytes and FIN.
+                None => {}
             },
             Segment::Rst => {
                 if let Some(sock) = self.sockets.swap_remove(&SocketPair::new(dst, src)) {
